@@ -25,7 +25,7 @@ ASSUMPTIONS = [
     "hook logs of failed children assignments are not prescribed by the statement; only layers 2 and 3 apply to them",
     "calls in which a hook edits the tree itself (plan 'evict': a per-node hook detaches the first other child of its parent argument, a *_children hook re-files the first listed child under another node) are judged by layer 3 and link consistency only",
 ]
-CLASS_SPECS = ["HNM", "HLM", "HNode", "HDictLM", ["HNode", "HAnyNode", "HSymlink", "HNM"], ["HLM", "HDictLM"], "HLateNM", "HLateLM", "HInstNM", "HSlotStoreNM", "HSideNM", "HArmNM", "HInstLM", "HCoopNM", "HCoopLM", "HCopyNM", "HCopyLM"]
+CLASS_SPECS = ["HNM", "HLM", "HNode", "HDictLM", ["HNode", "HAnyNode", "HSymlink", "HNM"], ["HLM", "HDictLM"], "HLateNM", "HLateLM", "HInstNM", "HSlotStoreNM", "HSideNM", "HArmNM", "HInstLM", "HCoopNM", "HCoopLM", "HCopyNM", "HCopyLM", "HArmLM"]
 
 
 def detach_of(state, n, old):
@@ -331,6 +331,10 @@ def check_case(case, acc):
             stats["evicting"] = stats.get("evicting", 0) + 1
             return
         check_brackets(step)
+        if op[0] == "children" and isinstance(op[2], dict):
+            # a children value that is not iterable at all (None, a number): refused before anything happens - no hook fires
+            if step.exc is None or step.log or step.post != step.pre:
+                raise Violation("hook-on-refusal", "%s: a non-iterable children value must be refused before any hook runs; outcome %s, hooks %s, forest %s" % (ctx, type(step.exc).__name__ if step.exc else "accepted", step.log, step.post))
         if plain and step.exc is None:
             expected = mut.spec_log(step.pre, op)
             if step.log != expected:
@@ -389,7 +393,7 @@ def plan(tier, seed):
             for i in range(shards):
                 tasks.append({"engine": "enum", "n": n, "spec": spec, "index": i, "count": shards, "pairs": n <= 2 or (n == 3 and tier == "thorough"), "maxlen": None if n <= 3 else 3, "routes": None if n <= 3 else ["parent", "detour"]})
     # classes that were already in use when they got their hooks (assigned to the class, or a callable per instance)
-    for spec in ("HLateNM", "HLateLM", "HInstNM", "HInstLM", "HArmNM", "HSideNM", "HSlotStoreNM", "HCoopNM", "HCoopLM"):
+    for spec in ("HLateNM", "HLateLM", "HInstNM", "HInstLM", "HArmNM", "HArmLM", "HSideNM", "HSlotStoreNM", "HCoopNM", "HCoopLM"):
         for n in (2, 3):
             shards = 1 if n < 3 else 4
             for i in range(shards):
